@@ -367,7 +367,11 @@ def _run_B(plan, res, viol):
         results[b] = rec
         if b is None:
             if nb != 1:
-                raise HarnessError(f"full batch produced {nb} batches")
+                # what the library does with batch_size=None is its own business, but one epoch over
+                # the whole training set in several steps is not a "full batch": report, do not abort
+                viol("full_batch_not_one_batch", f"batch_size=None produced {nb} optimisation steps "
+                     f"in one epoch", "full_batch_not_one_batch")
+                return
             # training-set size from the split the batcher made
             n_all = pt.dset.num_gpts
             eff = plan["ratio"]
